@@ -9,7 +9,7 @@ import (
 )
 
 func init() {
-	register("C13", []string{"./src/cache/..."}, checkC13)
+	register("C13", []string{"./src/cache/...", "./src/fs/..."}, checkC13)
 }
 
 // isAbortCall: call that makes the consumer of an upload pipe fail instead of seeing a clean end of stream.
@@ -44,6 +44,9 @@ func isAbortCall(i ssa.Instruction) bool {
 func checkC13(p *Prog, r *Report) {
 	r.Explanation = "(1) E9/E5 sibling writers: every function of package cache that builds a tar.Writer over a writer parameter (the upload pipe of the HTTP and command caches) must, on the error edge of the fs.Walk/storeFile result, reach an abort (CloseWithError on the pipe, or the command's context cancel) on every path to its return and must not reach another Walk (continue the loop); siblings are cross-checked: all writers abort. (2) E12 pair discipline: readTar, httpCache.retrieve and every (bool, error) function of the package never return (true, non-nil error) and return true only with a nil error; readTar returns true only on the io.EOF edge of tr.Next. (3) cmdCache.Retrieve returns the conjunction of the tar result and the command result, the command result is false on the cmd.Wait() error edge, and the pipe feeding readTar is never closed cleanly on its write side (a clean EOF would make a truncated stream look complete). (4) httpCache.retrieve returns false for every status other than 200."
 	r.NotCovered = []string{"HTTP server semantics", "partial files left in plz-out after a failed retrieve (they are rebuilt)", "faults inside the kernel pipe"}
+	// the store and the restore both rely on a read error inside a walked tree ending the walk
+	p.walkSortedRule(r, "fs/E5.walk-sorted")
+	p.deferredErrorNotClobbered(r, "E12.deferred-close-keeps-the-first-error", "cache", "fs")
 	storeFile := p.Fn("cache", "storeFile")
 	readTar := p.Fn("cache", "readTar")
 	if storeFile == nil || readTar == nil {
@@ -311,5 +314,75 @@ func checkC13(p *Prog, r *Report) {
 		r.check(okk, rule, "status != 200 => miss", p.pos(hr.Pos()), fnName(hr), "returns false on the StatusCode != 200 edge", "httpCache.retrieve does not return false on the non-200 edge: an error page would be unpacked as an archive")
 	} else {
 		r.unresolved(rule, "cache.httpCache.retrieve")
+	}
+}
+
+// deferredErrorNotClobbered: a deferred closure that assigns to the function's named error result (typically the error
+// of Close) must do so only when no error is pending: otherwise the failure of the copy it follows is overwritten by
+// Close's nil and the caller sees success.
+func (p *Prog) deferredErrorNotClobbered(r *Report, rule string, pkgs ...string) {
+	n, nBad := 0, 0
+	for _, fn := range p.Funcs(pkgs...) {
+		if fn.Parent() != nil {
+			continue
+		}
+		eachInstr(fn, false, func(_ *ssa.Function, i ssa.Instruction) {
+			d, ok := i.(*ssa.Defer)
+			if !ok {
+				return
+			}
+			g := resolveCalleeDeep(&d.Call)
+			if g == nil || g.Parent() != fn {
+				return
+			}
+			eachInstr(g, false, func(_ *ssa.Function, j ssa.Instruction) {
+				st, ok := j.(*ssa.Store)
+				if !ok {
+					return
+				}
+				fv, ok := st.Addr.(*ssa.FreeVar)
+				if !ok || typeString(fv.Type()) != "*error" {
+					return
+				}
+				// is the captured cell a named result of fn?
+				cell, _ := freeVarBinding(fv).(*ssa.Alloc)
+				if cell == nil {
+					return
+				}
+				isResult := false
+				for _, ret := range returnsOf(fn) {
+					for _, rv := range ret.Results {
+						if u, ok := rv.(*ssa.UnOp); ok && u.X == ssa.Value(cell) {
+							isResult = true
+						}
+					}
+				}
+				if !isResult {
+					return
+				}
+				n++
+				guarded := blockJustified(st.Block(), func(f Fact) bool {
+					x, eq, ok := isNilCmp(f.V)
+					if !ok {
+						return false
+					}
+					u, isLoad := x.(*ssa.UnOp)
+					return isLoad && u.X == ssa.Value(fv) && ((eq && f.Val) || (!eq && !f.Val))
+				}, 4)
+				if !guarded {
+					// replacing one error by another error is harmless: the assigned value is known to be non-nil
+					if k, isNil := errKnown(factsAt(st), []ssa.Value{st.Val}); k && !isNil {
+						guarded = true
+					}
+				}
+				if !guarded {
+					nBad++
+					r.bad(rule, fn.Name()+": the deferred assignment keeps an earlier error", p.pos(st.Pos()), fnName(fn), "a deferred closure assigns to the named error result without first checking that it is nil: the error of the operation before it (a failed write while restoring a file) is replaced by Close's nil, and the caller reports success - a retrieve is a hit although an output was not restored")
+				}
+			})
+		})
+	}
+	if nBad == 0 {
+		r.ok(rule, "no deferred closure overwrites a pending error", "-", "", itoa(n)+" deferred assignment(s) to a named error result in packages "+strings.Join(pkgs, ", ")+", each under err == nil or assigning a non-nil error")
 	}
 }
